@@ -73,6 +73,10 @@ Additions for retrospective.py / data.py (reveal_plates, mask_screen, unmask_scr
                       `*args`, `**kwargs` and undeclared keywords are refused.  A template starting with `!` denotes a
                       `result T` (the call may raise).  WHICH arguments a call site passes is thus read from the source; the
                       template only says what the callee does with a complete argument list.
+  cfg["mask_store"]   {"array": template, "scalar": template} over {a} {m} {v}, each denoting a `result (list T)`:
+                      `a[m] = v` with a : list T a bound variable and m : list bool (numpy boolean-mask assignment) is
+                      `a <- template`; "array" when v : list T, "scalar" when v : T (broadcast of one value).  The templates
+                      are trusted (one numpy call: which positions are written, how the values are consumed, what raises).
 """
 import ast
 
@@ -629,6 +633,18 @@ class Tr:
             if isinstance(tgt, ast.Subscript) and isinstance(tgt.value, ast.Name):      # d[k] = v on a `dict T`
                 d = tgt.value.id
                 dt = env.get(d)
+                if dt is not None and dt[0] == "list" and self.cfg.get("mask_store") is not None and self.M["type"] == "result":
+                    # a[m] = v with m a boolean mask (cfg["mask_store"]); any other subscript falls through
+                    probe = []
+                    mm, mt = self.expr(tgt.slice, env, probe)
+                    if mt == ("list", ("bool",)):
+                        hoist.extend(probe)
+                        vv, vt = self.expr(st.value, env, hoist)
+                        if vt == dt:
+                            term = self.cfg["mask_store"]["array"].format(a=d, m=mm, v=vv)
+                        else:
+                            term = self.cfg["mask_store"]["scalar"].format(a=d, m=mm, v=self.need(vv, vt, dt[1], hoist))
+                        return self.bind_hoist(hoist, "%sdor %s <- %s;\n" % (ind, d, term), ind) + self.block(rest, env, k, ind)
                 if dt is not None and dt[0] == "list" and self.cfg.get("index_error") is not None and self.M["type"] == "result":
                     # a[i] = v on a list / numpy array: IndexError (tag cfg["index_error"]) outside -len..len-1
                     ii, it = self.expr(tgt.slice, env, hoist)
